@@ -465,6 +465,7 @@ def bshape(a, b):
 def arr_map2(f, a, b, dtype="num"):
     """Elementwise binary op with broadcasting on literal-1 dims."""
     nd = max(a.ndim, b.ndim)
+    a0, b0 = a, b
     a, b = arr_promote(a, nd), arr_promote(b, nd)
     shp = bshape(a, b)
     la = [is_lit(d, 1) for d in a.shape]
@@ -476,7 +477,19 @@ def arr_map2(f, a, b, dtype="num"):
         ib = [zero if l else x for l, x in zip(lb, i)]
         return f(a.elem(*ia), b.elem(*ib))
 
-    return Arr(nd, shp, el, dtype)
+    r = Arr(nd, shp, el, dtype)
+    # a mask selection combined elementwise with a scalar (or with a selection through the same mask) stays aligned
+    ala, alb = getattr(a0, "aligned", None), getattr(b0, "aligned", None)
+    if ala is not None and b0.ndim == 0:
+        m, g = ala
+        r.aligned = (m, lambda *i: f(g(*i), b0.elem()))
+    elif alb is not None and a0.ndim == 0:
+        m, g = alb
+        r.aligned = (m, lambda *i: f(a0.elem(), g(*i)))
+    elif ala is not None and alb is not None and ala[0] is alb[0]:
+        m, g1, g2 = ala[0], ala[1], alb[1]
+        r.aligned = (m, lambda *i: f(g1(*i), g2(*i)))
+    return r
 
 
 def arr_map1(f, a, dtype=None):
